@@ -7,16 +7,20 @@ From Coq Require Import ZArith ZifyBool ZifyN ZifyNat.
 Definition keep (ts ts' : tstate) : Prop :=
   r_hydrated (reader_of ts') = r_hydrated (reader_of ts) /\
   r_tail_bid (reader_of ts') = r_tail_bid (reader_of ts) /\
-  ts_index ts' = ts_index ts.
+  ts_index ts' = ts_index ts /\
+  r_since (reader_of ts') = r_since (reader_of ts).
 
 Lemma keep_refl ts : keep ts ts. Proof. repeat split. Qed.
 Lemma keep_trans a b d : keep a b -> keep b d -> keep a d.
-Proof. intros (A1 & A2 & A3) (B1 & B2 & B3). repeat split; congruence. Qed.
+Proof. intros (A1 & A2 & A3 & A4) (B1 & B2 & B3 & B4). repeat split; congruence. Qed.
 Lemma keep_with_writer ts w : keep ts (with_writer ts w). Proof. repeat split. Qed.
 Lemma keep_count_add ts d : keep ts (count_add ts d).
 Proof. unfold count_add. destruct (d =? 0); repeat split. Qed.
 Lemma keep_seal ts b : keep ts (seal ts b).
-Proof. destruct (chain_push_flags (reader_of ts) b) as (A & B). repeat split; assumption. Qed.
+Proof.
+  destruct (chain_push_flags (reader_of ts) b) as (A & B). repeat split; try assumption.
+  rewrite reader_of_seal. unfold chain_push. destruct (b_used b =? 0); [reflexivity|]. destruct (r_tail_bid (reader_of ts) =? b_id b); reflexivity.
+Qed.
 
 (* [CS] is stable along the write side *)
 Lemma chain_of_seal_app ts b : exists q, chain_of (seal ts b) = chain_of ts ++ q.
@@ -29,7 +33,7 @@ Lemma CS_grow ts ts' bid nid bid' nid' :
   CS ts bid nid -> keep ts ts' -> (exists q, chain_of ts' = chain_of ts ++ q) ->
   nid <= nid' -> 0 < bid' -> (nid <= bid' \/ bid' = bid) -> CS ts' bid' nid'.
 Proof.
-  intros Hcs (K1 & K2 & K3) (q & Hq) Hn Hb Hbb Hh p Hp. rewrite K1 in Hh. rewrite K3 in Hp.
+  intros Hcs (K1 & K2 & K3 & _) (q & Hq) Hn Hb Hbb Hh p Hp. rewrite K1 in Hh. rewrite K3 in Hp.
   destruct (Hcs Hh p Hp) as (A & B & C). rewrite K2. split; [exact A|]. split; [exact Hb|].
   rewrite Hq. destruct (p_tail p).
   - destruct C as ((j & Hj) & C2 & C3). split; [exists j; now apply find_id_app_some|]. split; [lia|].
